@@ -14,7 +14,7 @@ from __future__ import annotations
 import asyncio
 import random
 
-from vsim.core import RunResult
+from vsim.core import RunResult, task_exc
 from vsim.gw import GwWorld, gc_paused
 from vsim.gw import Message
 
@@ -202,8 +202,8 @@ def _run(scn, w: GwWorld, res: RunResult):
     if hung:
         res.violate(PROP, "quiescence", "task-hung", f"{len(hung)} actor tasks never finished")
     for t in tasks:
-        if t.done() and not t.cancelled() and t.exception() is not None:
-            raise t.exception()
+        if t.done() and not t.cancelled() and task_exc(t) is not None:
+            raise task_exc(t)
     if scn["cfg"].get("reenter"):
         # the application leaves and re-enters the gateway context (reconnect): nothing parked may be forgotten
         lt.cancel()
